@@ -5,6 +5,8 @@ Helper lemmas: PeroVerif/Lemmas/KVCache.lean.
 -/
 import PeroVerif.Model.KVCache
 import PeroVerif.Lemmas.KVCache
+import PeroVerif.Model.Decoder
+import PeroVerif.Lemmas.Decoder
 
 namespace C20
 open KV
@@ -63,5 +65,75 @@ theorem output_clean (eos ign : Nat) (line : List Nat) :
     (postprocess eos ign line).Sublist line :=
   ⟨fun h => (postprocess_mem eos ign line eos h).1 rfl, fun h => (postprocess_mem eos ign line ign h).2 rfl,
     postprocess_sublist eos ign line⟩
+
+/-! ### what is computed: cached = recomputed = teacher-forced (functional model `Model/Decoder.lean`)
+
+For EVERY choice of the layer functions (projections, attention, norms, feed-forward: in particular the float
+kernels the code calls), every number of layers, every symbol sequence and every state the decoder object was
+left in by earlier batches (stale caches, `torch.empty` garbage). -/
+section functional
+open Dec
+variable {V M K KM : Type}
+
+/-- Step-by-step decoding WITH key/value caches returns, at every step `t`, exactly position `t` of the full
+masked (teacher-forced) pass over the symbols fed — whatever the caches held before. -/
+theorem cached_eq_full (fs : List (LayerFn V M K KM)) (mem : M) (xs : List V) (ss : List (LState V K KM))
+    (hlen : ss.length = fs.length) (hroom : ∀ s ∈ ss, s.roomy xs.length) :
+    (runSteps true fs mem [] xs ss).2 = (fullDecoder fs mem xs).map some :=
+  Dec.runSteps_cached_eq_full fs mem xs ss hlen hroom
+
+/-- Step-by-step decoding that re-projects keys and values at every step (`is_cached=False`) does the same. -/
+theorem uncached_eq_full (fs : List (LayerFn V M K KM)) (mem : M) (xs : List V) (ss : List (LState V K KM))
+    (hlen : ss.length = fs.length) (hroom : ∀ s ∈ ss, s.roomy xs.length) :
+    (runSteps false fs mem [] xs ss).2 = (fullDecoder fs mem xs).map some :=
+  Dec.runSteps_uncached_eq_full fs mem xs ss hlen hroom
+
+/-- hence cached decoding = recomputation, step by step, from any two states -/
+theorem cached_eq_uncached (fs : List (LayerFn V M K KM)) (mem : M) (xs : List V) (ss ss' : List (LState V K KM))
+    (hlen : ss.length = fs.length) (hroom : ∀ s ∈ ss, s.roomy xs.length)
+    (hlen' : ss'.length = fs.length) (hroom' : ∀ s ∈ ss', s.roomy xs.length) :
+    (runSteps true fs mem [] xs ss).2 = (runSteps false fs mem [] xs ss').2 := by
+  rw [cached_eq_full fs mem xs ss hlen hroom, uncached_eq_full fs mem xs ss' hlen' hroom']
+
+/-- The masked pass is causal: the scores of the first `n` positions do not depend on later symbols (so the
+scores of step `t` equal position `t` of the masked pass over the COMPLETE emitted sequence). -/
+theorem full_prefix (fs : List (LayerFn V M K KM)) (mem : M) (xs : List V) (n : Nat) :
+    fullDecoder fs mem (xs.take n) = (fullDecoder fs mem xs).take n :=
+  Dec.fullDecoder_take fs mem xs n
+
+/-- History independence: decoding a line with the decoder object left behind by ANY earlier line (other encoder
+output, other symbols, other length) gives the scores of decoding it with fresh objects. -/
+theorem history_independent (fs : List (LayerFn V M K KM)) (mem mem' : M) (xs xs' : List V)
+    (ss : List (LState V K KM)) (n : Nat) (hlen : ss.length = fs.length) (hroom : ∀ s ∈ ss, s.roomy n)
+    (hx : xs.length ≤ n) (hx' : xs'.length ≤ n) :
+    (runSteps true fs mem [] xs (runSteps true fs mem' [] xs' ss).1).2 = (fullDecoder fs mem xs).map some :=
+  Dec.runSteps_after_history fs mem mem' xs xs' ss n hlen hroom hx hx'
+
+/-- a concrete layer over `Nat` for the non-vacuity check: every function is injective enough to tell inputs apart -/
+def natLayer (c : Nat) : LayerFn Nat Nat Nat Nat where
+  projKV y := 2 * y + c
+  selfAttn y ks := y + 3 * ks.sum + ks.length
+  projMem m := m + c
+  crossAttn z km := z * km + 1
+  add a b := a + 2 * b
+  norm1 a := a + 1
+  norm2 a := 2 * a
+  norm3 a := a + c
+  ff a := a * a
+
+/-- non-vacuity: two layers, three symbols, caches of length 4 full of stale values (7, 8, 9): the hypotheses hold
+and the cached run yields the values of the masked pass (no stale value is read) -/
+example :
+    let ss : List (LState Nat Nat Nat) := [⟨[7, 7, 7, 7], 8, [9, 9, 9, 9]⟩, ⟨[9, 8, 7, 6], 5, [4, 3, 2, 1]⟩]
+    (ss.length = 2 ∧ ∀ s ∈ ss, s.roomy 3) ∧
+    (runSteps true [natLayer 1, natLayer 2] 5 [] [1, 2, 3] ss).2 =
+      (fullDecoder [natLayer 1, natLayer 2] 5 [1, 2, 3]).map some ∧
+    (fullDecoder [natLayer 1, natLayer 2] 5 [1, 2, 3]) ≠ (fullDecoder [natLayer 1, natLayer 2] 5 [1, 2, 4]) := by
+  refine ⟨⟨rfl, ?_⟩, by decide, by decide⟩
+  intro s hs
+  simp only [List.mem_cons, List.not_mem_nil, or_false] at hs
+  rcases hs with rfl | rfl <;> simp [LState.roomy]
+
+end functional
 
 end C20
